@@ -4,6 +4,7 @@ Property statements and their proofs only; the model is `Model/AddrMap.lean`.
 -/
 import LitedramVerif.Model.AddrMap
 import LitedramVerif.Proofs.NatBits
+import LitedramVerif.Generated.ModuleLib
 namespace C06
 open AddrMap NatBits
 
@@ -332,6 +333,15 @@ theorem consecutive_walk (g : Geom) (a : Nat) :
     have : ¬ a / 2 ^ g.cbaShift % 2 ^ g.bankBits + 1 = 2 ^ g.bankBits := by omega
     simp [this]
   · intro h h2; rw [e1, e2]; simp only [h, if_true]; rw [e3, e4]; simp [h2]
+
+/-- Every module of the library (table regenerated from `litedram/modules.py` on every run) has
+power-of-two dimensions and meets the `wide_col` clause of `WF`: a device with more than 1024
+columns has more rows than columns, so `cmd.a` has the extra address line the A10 skip needs. -/
+theorem library_geometries_wf :
+    ∀ m ∈ Generated.moduleLib,
+      m.nbanks = 2 ^ m.nbanks.log2 ∧ m.nrows = 2 ^ m.nrows.log2 ∧ m.ncols = 2 ^ m.ncols.log2 ∧
+      (10 < m.ncols.log2 → m.ncols.log2 < m.nrows.log2) ∧ 8 ≤ m.ncols.log2 ∧ 1 ≤ m.nbanks.log2 := by
+  decide +kernel
 
 /-! ### non-vacuity: concrete geometries meet `WF`, and the map is exercised on both sides of A10 -/
 
